@@ -22,8 +22,18 @@ static long g_hp, g_lp, g_np;               /* calls that put the task into a hi
 static size_t g_hp_idx, g_np_idx;           /* index used */
 static long g_incr;                         /* increment_global_activity_count (decided in C05) */
 static long g_sel; static size_t g_sel_arg, g_sel_ret; static bool g_sel_fallback;
+/* std::unique_lock<pu_mutex_type> l: select_active_pu may hand back the selected worker's PU mutex in it (elasticity on).  That mutex is
+ * what keeps the selected worker from going to sleep (suspend_processing_unit takes it for running -> pre_sleep) between "selected as
+ * active" and "task is on its queue": it has to be held until the task is on the queue (C19) */
+struct ulock { bool owns; };
+static struct ulock *g_sel_lock; static bool g_sel_owns;   /* the lock object select_active_pu was given; whether it came back owning a mutex */
+static bool g_sel_owns_now;                                /* whether that lock object owns the mutex NOW (false once it was destroyed) */
+static struct ulock ulock_none(void) { struct ulock l; l.owns = false; return l; }
+static void ulock_dtor(struct ulock *l) { l->owns = false; if (l == g_sel_lock) g_sel_owns_now = false; }
+static void ulock_unlock(struct ulock *l) { VX_ASSERT(l->owns, "unlock() of a unique_lock that owns nothing"); l->owns = false; if (l == g_sel_lock) g_sel_owns_now = false; }
 
-#define PUT_PRE(self) VX_ASSERT(g_hp + g_lp + g_np == 0, "the task is handed to at most one queue")
+#define PUT_PRE(self) do { VX_ASSERT(g_hp + g_lp + g_np == 0, "the task is handed to at most one queue"); \
+  VX_ASSERT(g_sel == 1 && g_sel_owns_now == g_sel_owns, "the PU mutex handed back by select_active_pu is still held when the task is put on the queue"); } while (0)
 static void hp_put(struct lpqs *self, size_t i) { PUT_PRE(self); VX_ASSERT(i < self->num_high_priority_queues_, "high_priority_queues_[i]: i < num_high_priority_queues_"); g_hp++; g_hp_idx = i; }
 static void np_put(struct lpqs *self, size_t i) { PUT_PRE(self); VX_ASSERT(i < self->num_queues_, "queues_[i]: i < num_queues_"); g_np++; g_np_idx = i; }
 static void lp_put(struct lpqs *self) { PUT_PRE(self); g_lp++; }
@@ -42,13 +52,15 @@ static void *get_thread_id_data(thread_id_ref t) { return NULL; }
 /* scheduler_base::select_active_pu -- replaced by the contract proved in C19 (unit state.select_active_pu):
  *   requires num_thread < states_.size();  ensures result < states_.size();  without enable_elasticity: result == num_thread.
  * states_.size() == num_queues_ (both are the constructor argument init.num_queues_): listed as assumption. */
-static size_t select_active_pu(struct lpqs *self, size_t num_thread, bool allow_fallback)
+static size_t select_active_pu(struct lpqs *self, struct ulock *l, size_t num_thread, bool allow_fallback)
 {
+  VX_ASSERT(!l->owns, "select_active_pu is handed an empty unique_lock");
   VX_ASSERT(num_thread < self->num_queues_, "select_active_pu precondition: num_thread < number of workers");
   g_sel++; g_sel_arg = num_thread; g_sel_fallback = allow_fallback;
   size_t r = num_thread;
   if (ELASTIC(self)) { r = nondet_size(); VX_ASSUME(r < self->num_queues_); /* C19 state.select_active_pu postcondition */ }
-  g_sel_ret = r;
+  if (ELASTIC(self)) l->owns = nondet_bool();   /* C19 state.select_active_pu: the lock of the selected worker, or none (nothing selectable / original worker kept) */
+  g_sel_ret = r; g_sel_lock = l; g_sel_owns = l->owns; g_sel_owns_now = l->owns;
   return r;
 }
 
@@ -69,7 +81,7 @@ __CPROVER_requires(PLACE_PRE(self) && data->schedulehint.hint == vx_hint0 && dat
 __CPROVER_ensures(PLACE_POST(self, vx_prio0, vx_mode0, vx_hint0))
 /* the hint the task carries from now on (used when it is re-queued, C01) names the queue it was put into */
 __CPROVER_ensures(g_np == 1 ==> (data->schedulehint.mode == hint_mode_thread && data->schedulehint.hint >= 0 && (size_t) data->schedulehint.hint == g_np_idx))
-__CPROVER_assigns(g_hp, g_lp, g_np, g_hp_idx, g_np_idx, g_incr, g_sel, g_sel_arg, g_sel_ret, g_sel_fallback, self->curr_queue_, data->schedulehint, data->priority)
+__CPROVER_assigns(g_hp, g_lp, g_np, g_hp_idx, g_np_idx, g_incr, g_sel, g_sel_arg, g_sel_ret, g_sel_fallback, g_sel_lock, g_sel_owns, g_sel_owns_now, self->curr_queue_, data->schedulehint, data->priority)
 //@LIFT body
 #endif
 
@@ -80,7 +92,7 @@ __CPROVER_requires(PLACE_PRE(self))
 __CPROVER_ensures(PLACE_POST(self, priority, schedulehint.mode, schedulehint.hint))
 /* a task may only be redirected to another worker when the caller allowed it AND a worker hint was given */
 __CPROVER_ensures(g_sel == 1 && (g_sel_fallback ==> (allow_fallback && schedulehint.mode == hint_mode_thread)))
-__CPROVER_assigns(g_hp, g_lp, g_np, g_hp_idx, g_np_idx, g_sel, g_sel_arg, g_sel_ret, g_sel_fallback, self->curr_queue_)
+__CPROVER_assigns(g_hp, g_lp, g_np, g_hp_idx, g_np_idx, g_sel, g_sel_arg, g_sel_ret, g_sel_fallback, g_sel_lock, g_sel_owns, g_sel_owns_now, self->curr_queue_)
 //@LIFT body
 #endif
 
